@@ -404,7 +404,7 @@ PROPS['C09'] = dict(
     mc=[dict(module='MC_Conc', name='MC_ConcAll', cfg=CONC_CFG, consts=dict(Invs='NoPanic NoInternalError NoDeadlock NoRace QuiescentLiveEqualsRecovered', Menu='MenuAll'),
              workers=12, timeout=2400, xmx='16g',
              quick=dict(Clients='{"a", "b", "c"}'), thorough=dict(Clients='{"a", "b", "c", "d"}'))],
-    traces=[dict(profile='race', spec='LinTrace', enforce=['c09', 'norace', 'nostuck'], sig=lin_sig, deterministic=False, race=True, chunk=15000,
+    traces=[dict(profile='race', spec='LinTrace', enforce=['c09', 'norace', 'nostuck', 'bgclose'], sig=lin_sig, deterministic=False, race=True, chunk=15000,
                  quick_seeds=1, thorough_seeds=2, tlc_timeout=2400),
             dict(profile='conc', spec='LinTrace', enforce=['nostuck'], sig=lin_sig, deterministic=False, race=True, chunk=15000,
                  quick_seeds=1, thorough_seeds=1, tlc_timeout=2400)],
